@@ -589,6 +589,15 @@ inductive UDef
   | item (n : List Char) (s : List Char)         -- units['n'] = <expression equal to parse(s)>   (no prefixes)
   deriving Repr
 
+
+def UDef.name : UDef → List Char | .wrap n _ => n | .str n _ => n | .item n _ => n
+/-- definitions made through `Units.__setattr__` get all prefixed forms; `units['x'] = …` does not -/
+def UDef.hasPrefixes : UDef → Bool | .item _ _ => false | _ => true
+
+/-- the names one definition puts into the `Units` dict -/
+def UDef.names (d : UDef) : List (List Char) :=
+  d.name :: (if d.hasPrefixes then prefixes.map (fun p => p.1 ++ d.name) else [])
+
 def defineAll : UTable → List UDef → Except PErr UTable
   | U, [] => .ok U
   | U, .wrap n v :: t => do let U' ← define U n v; defineAll U' t
